@@ -49,6 +49,10 @@ LAYOUT_GRAMMARS = [
     ('upper', [gs.Rule('start', ('seq', ('clo', ('alt', C('NUM'), T('+'))), ('eof',))), gs.Rule('NUM', ('pat', r'\d+'))], ['1', '+'], False),
     ('upper-token', [gs.Rule('start', ('seq', T('a'), C('B'), ('eof',))), gs.Rule('B', T('b'))], ['a', 'b'], False),
 ]
+# a second comment syntax whose patterns start with a name character (REM...; and --... with namechars '-')
+ALT_DIRS = {'comments': r'REM[^;]*;', 'eol_comments': r'--[^\n]*', 'namechars': '-'}
+ALT_RUNS = [' ', '\n', 'REM c;', '--c\n', 'REM c;--d\n', ' REM c; ']
+ALT_GRAMMAR = ('alt-comments', [gs.Rule('start', ('seq', ('clo', ('alt', T('a'), T('+'), T('b-c'))), ('eof',)))], ['a', '+', 'b-c'], False)  # nameguard makes a comment that starts with a name character stick to a preceding name token: reference oracle only
 
 
 def layout_items(tier):
@@ -62,6 +66,9 @@ def layout_items(tier):
                 if n <= 2 or tier != 'quick':
                     items.append((name, seq, 'regex-directive'))
                     items.append((name, seq, 'empty-setting'))
+    for n in range(0, maxlex + 1):
+        for seq in itertools.product(ALT_GRAMMAR[2], repeat=n):
+            items.append(('alt-comments', seq, 'default'))
     return items, runs
 
 
@@ -69,8 +76,8 @@ def shard_layouts(m, items, runs=()):
     cache = {}
     for name, seq, wsmode in items:
         if (name, wsmode) not in cache:
-            _n, rules, lexemes, token_only = next(g for g in LAYOUT_GRAMMARS if g[0] == name)
-            dirs = dict(DIRS)
+            _n, rules, lexemes, token_only = next(g for g in LAYOUT_GRAMMARS + [ALT_GRAMMAR] if g[0] == name)
+            dirs = dict(ALT_DIRS if name == 'alt-comments' else DIRS)
             if wsmode == 'regex-directive':
                 dirs['whitespace'] = r'[ \t]+'
             g = gs.Grammar(rules=rules, directives=dirs)
@@ -79,7 +86,9 @@ def shard_layouts(m, items, runs=()):
         g, model, token_only = cache[(name, wsmode)]
         psettings = {'whitespace': ''} if wsmode == 'empty-setting' else {}
         ws = {'default': 'DEFAULT', 'regex-directive': r'[ \t]+', 'empty-setting': None}[wsmode]
-        ref = Ref(g, Cfg(whitespace=ws, comments=COMMENTS, eol_comments=EOLC))
+        ref = Ref(g, Cfg(whitespace=ws, comments=dirs['comments'], eol_comments=dirs['eol_comments'], namechars=dirs.get('namechars', '')))
+        if name == 'alt-comments':
+            runs = ALT_RUNS
         base_text = ' '.join(seq)
         base = impl.parse(model, base_text, **psettings)
         m.add('evaluations')
@@ -194,6 +203,10 @@ LAYERING = {
     'comments': (r'\(\*.*?\*\)', r'\{.*?\}', "start: 'a' 'b' $ ;", ['a (*c*) b', 'a {c} b', 'a b']),
     'eol_comments': (r'#[^\n]*', r'//[^\n]*', "start: 'a' 'b' $ ;", ['a #c\n b', 'a //c\n b', 'a b']),
     'parseinfo': (True, False, "start: x:'a' $ ;", ['a']),
+    # an explicit empty string is a value too: it switches the feature off
+    'whitespace/empty': (r'[ ]+', '', "start: 'a' 'b' $ ;", ['a b', 'ab', 'a\tb']),
+    'comments/empty': (r'\(\*.*?\*\)', '', "start: 'a' 'b' $ ;", ['a (*c*) b', 'a b']),
+    'eol_comments/empty': (r'#[^\n]*', '', "start: 'a' 'b' $ ;", ['a #c\n b', 'a b']),
 }
 
 
@@ -223,13 +236,16 @@ def observe(name, body, probes, compile_v, directive_v, parse_v):
 
 def layering(rc):
     n = 0
-    for name, (v1, v2, body, probes) in LAYERING.items():
+    for lname, (v1, v2, body, probes) in LAYERING.items():
+        name = lname.split('/')[0]
         ref = {None: observe(name, body, probes, None, None, None)}
         for v in (v1, v2):
             ref[v] = observe(name, body, probes, None, None, v)
         if ref[v1] == ref[v2]:
-            rc.violation(f'c/probe-does-not-distinguish/{name}', ref={str(k): v for k, v in ref.items()})
+            rc.violation(f'c/probe-does-not-distinguish/{lname}', ref={str(k): v for k, v in ref.items()})
         for cv, dv, pv in itertools.product((None, v1, v2), repeat=3):
+            if dv == '':
+                continue     # an empty pattern cannot be written as a directive
             eff = pv if pv is not None else (dv if dv is not None else cv)
             got = observe(name, body, probes, cv, dv, pv)
             n += 1
